@@ -31,6 +31,10 @@ pub struct ProcPart {
     /// A first incarnation that is crashed at this tracked call (leaving torn outputs behind).
     pub crash_first: Option<u64>,
     pub crash_entropy: u64,
+    /// The stale files are not junk but exactly what this run is going to write, followed by more lines (the
+    /// output of an earlier run for a bigger building that begins the same way).
+    #[serde(default)]
+    pub stale_is_longer_version: bool,
 }
 
 #[derive(Clone, Debug, Serialize, Deserialize)]
@@ -676,7 +680,14 @@ fn process_world(ctx: &Ctx, scn: &Scn, pp: &ProcPart, ex: &mut Exec, fp: &mut Fn
     // main: disk with history
     let mut image2 = image.clone();
     for name in &pp.stale {
-        image2 = image2.with_file(name, Blob::Utf8("STALE-BYTES-OF-AN-EARLIER-RUN ".repeat(3000)));
+        let content = match (pp.stale_is_longer_version, twin_disk.read(name)) {
+            (true, Some(mut bytes)) => {
+                bytes.extend_from_slice(b"\nSTALE-BYTES-OF-AN-EARLIER-RUN: tail of a longer earlier output\n");
+                Blob::from_bytes(&bytes)
+            }
+            _ => Blob::Utf8("STALE-BYTES-OF-AN-EARLIER-RUN ".repeat(3000)),
+        };
+        image2 = image2.with_file(name, content);
     }
     let disk = worldp::Disk::create(ctx, &image2);
     let mut seq = 0;
@@ -800,8 +811,8 @@ impl Property for C17 {
         let mut w = Rng::for_stream(seed, stream::WORKLOAD);
         let focus = if w.chance(0.7) { Focus::Output } else { Focus::General };
         let mut p = gen_profile(&mut w, focus, ctx.thorough());
-        if p.steps > 24 {
-            p.steps = 12; // output checks are per value; long series add nothing here
+        if p.steps > 24 && !ctx.thorough() {
+            p.steps = 12; // quick tier: short series; the thorough tier keeps the long ones (hundreds to 8760 values per line)
         }
         let control_chars = w.chance(0.1);
         p.f_control_chars = control_chars;
@@ -834,7 +845,8 @@ impl Property for C17 {
             let mut c = Rng::for_stream(seed, stream::CRASH);
             // crash an earlier incarnation somewhere inside its output phase (the last 9 tracked calls)
             let crash_first = if c.chance(0.25) && shape.len() >= 9 { Some(shape.len() as u64 - 9 + c.below(9)) } else { None };
-            Some(ProcPart { entropy: s.next_u64(), plan, stale, crash_first, crash_entropy: s.next_u64() })
+            let stale_is_longer_version = d.chance(0.3);
+            Some(ProcPart { entropy: s.next_u64(), plan, stale, crash_first, crash_entropy: s.next_u64(), stale_is_longer_version })
         } else {
             None
         };
